@@ -64,7 +64,8 @@ OR == "or"
 \* is left out of the comparison
 PInf == 98
 NInf == 97
-Gt(v, t) == v # NInf /\ (v = PInf \/ v > t)
+\* (a threshold may be infinite too: nothing exceeds +inf, everything but -inf exceeds -inf)
+Gt(v, t) == IF t = PInf THEN FALSE ELSE IF t = NInf THEN v # NInf ELSE v # NInf /\ (v = PInf \/ v > t)
 Exceeds(v, t) == v # NaNv /\ Gt(v, t)
 Tested(vals) == {j \in DOMAIN vals : vals[j] # NaNv}
 \* set of admissible marker values
